@@ -4,9 +4,9 @@ from values import pval_j
 
 LEVEL = "proof"
 MODULE = "Phil.Props.C11"
-LEVEL_TEXT = "Lean theorems about the choice model (choice_converters.fetch / from_words), for all alternative lists distinct up to case and all source word lists: the result lists exactly the master's alternatives in order with their quoting (choice_alts_preserved, _shape), the starred set is the requested set under the three spellings, an unknown selected name raises Sorry carrying all alternatives (choice_unknown_sorry), extraction returns at most one name (single) and never none/empty when .optional=False (single_at_most_one, mandatory_never_empty). Tied to /repo by a correspondence run of fetch+extract on one choice definition and on several sources per parameter (lists, repeated assignments, re-opened scopes; whole-fetch model); the oracle evaluates the clauses on the implementation: every matching source is under the error clause, the last active one decides."
-LEVEL_NOTE = "Alternatives equal up to case (finding D19) are outside the theorems' hypothesis and visited in their own stream. str.lower is ASCII lower-casing in the model."
-TECHNIQUE = 'Lean 4 theorems on the choice fetch/extract model + differential correspondence (single and multi-source) + clause-by-clause oracle'
+LEVEL_TEXT = 'Lean theorems about the choice model, for all alternative lists distinct up to case and all source word lists: alternatives preserved with order and quoting, the starred set is the requested set, an unknown selected name raises Sorry carrying all alternatives, extraction clauses (single_at_most_one, mandatory_never_empty); and inside the fetch closed form at any depth for any number of sources (fetch_tree_choice_total): the LAST matching source decides (choice_value_at_depth), EVERY matching source is checked (choice_unknown_anywhere_fails), choice_alts_preserved_at_depth. Tied to /repo by a correspondence run of fetch+extract on one choice definition, on several sources per parameter and on source OBJECTS built through the API (twelve routes x four deliveries); the oracle evaluates the clauses on the implementation.'
+LEVEL_NOTE = "Alternatives equal up to case (finding D19) are outside the theorems' hypothesis and visited in their own stream. A single unstarred alternative is starred by a re-fetch (by design: the star is optional for one value)."
+TECHNIQUE = 'Lean 4 theorems on the choice fetch/extract model and on choices inside the fetch closed form + differential correspondence + clause-by-clause oracle'
 RULE = ("alternative lists (2..5 names, any default stars, quoted or not) x single/multi x optional {None,True,False} x source "
         "spellings (starred subsets, bare single names in any case, a+b forms, None, Auto, unknown names starred or not, quoted "
         "names, repeated names) x 1..4 matching sources per parameter in four layouts; x source definition OBJECTS made through "
